@@ -165,6 +165,7 @@ def apply (p : PPPoE) : List String → Out PPPoE
   | ["session_id", v] => match natArg v with | some n => .ok { p with sessionId := n % 65536 } | none => .throw .stdOther
   | ["payload_length", v] => match natArg v with | some n => .ok { p with payloadLength := n % 65536 } | none => .throw .stdOther
   | ["add_tag", c, v] => match natArg c with | some c => p.addTyped (c % 65536) v | none => .throw .stdOther
+  | ["add_tag_copy", c, v] => match natArg c with | some c => p.addTyped (c % 65536) v | none => .throw .stdOther
   | ["end_of_list"] => .ok (p.addTag ⟨END_OF_LIST, 0, []⟩)
   | ["service_name", v] => p.addTyped SERVICE_NAME v
   | ["ac_name", v] => p.addTyped AC_NAME v
